@@ -44,8 +44,9 @@ class MemoryAccess:
                         self.server.parse_dm14(priority, pgn, sa, timestamp, data)
                         if not self.seed_security:
                             self.state = DMState.WAIT_RESPONSE
-                            self._ca.unsubscribe(self._listen_for_dm14)
-                            if self._proceed_function is not None:
+                            if self._proceed_function is None:
+                                self._ca.unsubscribe(self._listen_for_dm14)
+                            else:
                                 self.proceed = self._proceed_function(
                                     self.server.command,
                                     int.from_bytes(
@@ -62,8 +63,11 @@ class MemoryAccess:
                                     0x0,  # placeholder for seed
                                 )  # call proceed function and pass in basic parameters
                                 if self.proceed:
+                                    # stop listening until respond() has been called
+                                    self._ca.unsubscribe(self._listen_for_dm14)
                                     self._notify_query_received()  # notify incoming request
                                 else:
+                                    # request refused: keep listening for the next one
                                     self.server.error = 0x100
                                     self.server.set_busy(True)
                                     self.server.parse_dm14(
